@@ -165,12 +165,19 @@ theorem compileSim_of_fragGo {i : E2EIn} {b : BackStages} (h : backStages i = so
     CompileSim (fun _ => b.pre) b.mid.anf := by
   obtain ⟨_, hann, _, hpre, _, _⟩ := backStages_spec h
   unfold fragGo at hf
-  simp only [Bool.and_eq_true, List.any_eq_true, beq_iff_eq, List.isEmpty_iff, List.contains_iff_mem] at hf
-  obtain ⟨⟨hclosed, hmainG⟩, f, hfmem, hname, hps⟩ := hf
+  simp only [Bool.and_eq_true, Bool.or_eq_true, List.any_eq_true, beq_iff_eq, List.isEmpty_iff] at hf
+  obtain ⟨hfr, f, hfmem, hname, hps⟩ := hf
   intro fuel eager hdef
   rw [hpre]
-  exact GoCompileProps.compile_preserves_run i.goenv b.afile b.gensym _ hclosed f hfmem hname hps hmainG
-    b.mid.anf (annotFile_toFn _ _ hann).symm fuel eager hdef
+  rcases hfr with hp | hd
+  · unfold fragGoPlain at hp
+    simp only [Bool.and_eq_true, List.contains_iff_mem] at hp
+    exact GoCompileProps.compile_preserves_run i.goenv b.afile b.gensym _ hp.1 f hfmem hname hps hp.2
+      b.mid.anf (annotFile_toFn _ _ hann).symm fuel eager hdef
+  · unfold fragGoDyn at hd
+    simp only [Bool.and_eq_true, List.contains_iff_mem] at hd
+    exact GoCompileProps.compile_preserves_run_dyn i.goenv b.afile b.gensym _ hd.1.1 f hfmem hname hps hd.1.2
+      b.mid.anf (annotFile_toFn _ _ hann).symm hd.2 fuel eager hdef
 
 /-- `DceFileSim` is now a theorem for every file inside the DCE contract (`Dce.dce_file_preserves`) -/
 theorem dceFileSim_of_ok (G : GFile) (hok : Dce.fileDceOK G = true) : DceFileSim G :=
